@@ -194,7 +194,8 @@ where
         let edge = graph.edge_endpoints(e).unwrap();
         subgraph_edges.contains(&(edge.0, edge.1)) || subgraph_edges.contains(&(edge.1, edge.0))
     });
-    graph.retain_nodes(|_, n| subgraph_nodes.contains(&n));
+    // (the terminals always belong to the tree, also when there is a single one and no path at all)
+    graph.retain_nodes(|_, n| subgraph_nodes.contains(&n) || terminals.contains(&n));
 
     let non_terminal_nodes = non_terminal_leaves(&graph, terminals);
     graph.retain_nodes(|_, n| !non_terminal_nodes.contains(&n));
